@@ -126,6 +126,8 @@ def gfAntilog (i : Nat) : Nat := Gen.gfAntilog.getD i 0
 def isDigit (c : Nat) : Bool := Gen.isDigit.getD c 0 == 1
 def isAlnum (c : Nat) : Bool := Gen.isAlnum.getD c 0 == 1
 def alnumValue (c : Nat) : Nat := Gen.alnumValue.getD c 255
+def padBytes : Nat × Nat := Gen.padBytes
+def masksOrder : List Nat := Gen.masksOrder
 def getRuns (m : Mode) (l : ECL) : List (Nat × Nat × Nat) := Gen.getRuns.getD (m.ix * 4 + l.ix) []
 end T
 
